@@ -23,7 +23,7 @@ CHECKS = {
         "(fan-out, depth, skipped child, failing rules at any position, two children failing at the same time, two rules with/without fail-on-first-error, non-triggering "
         "root) x 1-3 workers plus two cascades in flight; oracle evaluated at the instant AddEventAndWait returns (all actions of "
         "the cascade finished, exactly the expected rules ran, error report exact) and at quiescence (finish handler exactly once, "
-        "all monitors finished, no deadlock, no panic, no 'left events behind'); pairs of cascades with a non-triggering root; plus (Engine B) the "
+        "all monitors finished, no deadlock, no panic, no 'left events behind'); pairs of cascades with a non-triggering root; cascades with the pool's too-many-tasks threshold at 1 (load regulation code on every add / empty dequeue, bound 2); plus (Engine B) the "
         "error report seen from ECAL (addEventAndWait inside try/except: type, detail, data of every failing sink of the cascade, over sink "
         "sets x failing subsets x raise forms)"),
  "C12": dict(engine="engine-A", cat="model_checking", ref="DESIGN.md 4, 7/C12", note=SCHED_NOTE + "; thread ids are non-zero (NewThreadID never returns 0)", tech=SCHED_TECH,
@@ -44,8 +44,8 @@ CHECKS = {
         "and after evaluation - the tree is shared by all concurrent invocations, so evaluation must not write to it; and for sink-like rule sets "
         "(0-9 sinks on test.* x 32 subsets of exact-kind sinks x 16 ordered event pairs) RuleIndex.Match returns exactly the matching sinks and "
         "leaves the index (spare slice capacity included) untouched; differential isolation: for 15 sink bodies that write no global variable, event 2 "
-        "processed alone and processed after event 1 give the same observations and error report; a scheduled scenario in which two invocations write "
-        "different global variables without an ECAL mutex"),
+        "processed alone and processed after event 1 give the same observations and error report; scheduled scenarios in which two invocations write "
+        "different global variables / different entries of one global map and list without an ECAL mutex (element writes into ECAL containers are tracked locations of the race check)"),
  "C13": dict(engine="engine-A", also=["engine-B"], cat="model_checking", ref="DESIGN.md 4, 7/C13", note=SCHED_NOTE + "; the lexer goroutine of a Parse call is a free-running helper (single-producer/single-consumer pipe private to the call) whose accesses to instrumented variables are attributed to its owner thread for the race check", tech=SCHED_TECH,
    text="every schedule (preemption bound 1-3) of 17 drivers in which 2-3 threads run parser.Parse / ParseWithRuntime (and Validate+Eval of an "
         "interpolating string) on texts with if/elif/else, for, map literals, nested maps, a syntax error; scheduling points are the accesses to "
@@ -79,7 +79,7 @@ CHECKS = {
         "pop order must be priority-FIFO (728 cases); (ii) 3 rules x priorities {0,1,2}^3 x failing subset x fail-on-first-error on/off x 'failing rule "
         "added an event first' = 864 cases through ProcessEvent: ascending priority, nothing after the first failure when the flag is set, added events "
         "still processed, exact error report; (ii-b) the same with priorities from {MinInt64, MinInt64+1, -1, 0, 1, MaxInt64-1, MaxInt64}^3 (5488 cases); "
-        "(ii-c) the same after the rule set was replaced through Reset; "
+        "(ii-c) the same after the rule set was replaced through Reset; (ii-d, Engine B) 3 ECAL sinks x priorities {-2, -1, 0, 1, 2.7}^3 x failing subset; "
         "(iii) breadth-first search over monitor operation histories {new child(p), activate, skip, finish} on "
         "real monitors (up to 4-5 monitors, depth 8-10, canonical state = multiset of (priority, status)): HighestPriority == lowest number among "
         "activated unfinished monitors else -1; (iv) 5 concurrent drivers (2-3 workers, mixed priorities) under every schedule with <= 1-2 preemptions: "
@@ -108,18 +108,18 @@ CHECKS = {
         "float64(K(x)), a trailing Go error arrives as the error, panicking Go functions yield errors; math.* also through ECAL source with the "
         "same verdict and value; the 13 identity functions x 36 boundary numbers (every integer kind's limits and their neighbours, the float64 "
         "neighbours of 2^63 and 2^64); a trailing Go error in every position of the result list (only result, second, third), nil and non-nil; a Go "
-        "error object never arrives as a value; one call site math[n](args) evaluated for every pair / triple of 8 function names chosen at run time"),
+        "error object never arrives as a value; one call site math[n](args) evaluated for every pair / triple of 8 function names chosen at run time; a result list stays unchanged by later bridged calls"),
  "C20": dict(engine="engine-B", cat="exploration", ref="DESIGN.md 5, 7/C20", note="the packed binary is started in-process through RunPackedBinary with the osArgs/osExit/osStderr/handleError package seams (overlay-added setter; the same variables the repository's pack tests use); the interpreter binary is represented by filler bytes", tech="exhaustive sweep over source-binary lengths modulo the scanner's buffer geometry x filler patterns x project trees, with an independent reading of the produced archive",
    text="source binaries of every length in [0, 2 scan periods] (thorough 3; period = 4096 + len(marker) + 11) x 5 filler patterns (no '#', all '#', "
         "'#' at block ends, partial markers straddling block boundaries, trailing newline) x 3 project trees (single file, nested directories with an "
-        "imported library, empty file + binary file containing the marker, names starting with a dot + sibling directories + deep paths) packed with the real CLIPacker.Pack; oracle: archive at offset "
+        "imported library, empty file + binary file containing the marker, names starting with a dot + sibling directories + deep paths + entries named like the source and target binaries) packed with the real CLIPacker.Pack; oracle: archive at offset "
         "L+len(marker) holds every file byte-identical (read independently with archive/zip), RunPackedBinary reaches the exit callback with the "
         "entry file's value, imports see the packed library, never a panic or a fall-through to the normal command line; plus projects whose "
         "imported library has exactly s bytes for s in {2^k-1, 2^k, 2^k+1 : k = 9..17} + {100, 40000, 100000, 200000} x {compressible, incompressible} "
         "with its only definition at the very end; every history of 2 (thorough 3) packs of 5 projects of very different size into the SAME target; "
         "RunPackedBinary on the plain (marker-free) source binary hands over to the normal command line"),
  "C07": dict(engine="engine-B", cat="exploration", ref="DESIGN.md 5, 7/C07", note="a goroutine blocked on an abandoned channel is stable, so the goroutine count / dump after the call is not a timing oracle; evaluation of accepted trees is C06's corpus", tech="bounded exhaustive enumeration of token sequences, program mutations and byte strings, with the tree's own consumers (PrettyPrint, Validate) as shape oracle and a goroutine census for leaks",
-   text="all token sequences of length <= 3 over every keyword and symbol of the lexer plus identifier/number/string/newline (61 tokens) and of length 4 "
+   text="all token sequences of length <= 3 over every keyword and symbol of the lexer plus identifier/number/string/newline and three comment tokens incl. the empty block comment (64 tokens) and of length 4 "
         "over a 34-token subset (thorough: length 4 over all, 5 over the subset: 69 million parses); all single (thorough double) token deletions, "
         "duplications, swaps, stray bracket insertions and insertions / substitutions of 7 lexically invalid tokens of a 15-program corpus; all byte strings of length <= 2 and of length 3-4 over 40 bytes incl. "
         "NUL, ESC, DEL, invalid UTF-8. Oracle: terminates, exactly one of tree/error, errors positioned, no nil node, PrettyPrint and Validate do not "
@@ -133,7 +133,7 @@ CHECKS = {
         "a call to itself, n = 0..3, must equal the recursive reference (the literal node is re-entered while one of its evaluations is in progress); "
         "pieces include the escaped and the lone backslash (raw strings ending in a backslash); a raw string is never rejected; literals of <= 4 WHOLE "
         "expressions with a counting tick(): evaluated exactly once per occurrence, left to right; byte, octal and unicode escape sequences next to "
-        "interpolation against strconv.Unquote"),
+        "interpolation against strconv.Unquote; literals that create a variable in their first expression: {{y}} must equal {{y + 0}} and {{(y)}}"),
  "C08": dict(engine="engine-B", cat="exploration", ref="DESIGN.md 5, 7/C08", note="tree equality = node kind, token value, identifier flag, raw-vs-interpolating flag and child structure (positions, comments, blank lines ignored); four recorded findings (see known_findings.json) are pinned by the repository's own tests or need a redesign of comment placement", tech="bounded exhaustive enumeration of parseable programs with the round trip parse -> print -> parse -> print as oracle",
    text="every binary operator nested under every other on either side with and without parentheses, prefix operators on every operand and over every "
         "parenthesised pair, inside calls and index expressions (thorough: all operator triples in 5 parenthesisations); a 34-program corpus covering "
@@ -162,14 +162,16 @@ CHECKS = {
         "not on either operand and over the parenthesised pair; all x op1 y op2 z unparenthesised (reference tree built by precedence climbing over "
         "the stated table) and in both parenthesisations over 7 operands of every kind; each in 2-3 layouts (spaces, newline after every operator, "
         "redundant parentheses): 950 000 evaluations quick, 490 000 with a defined result (thorough adds all operator triples over 4 operands). "
-        "Oracle: value equality (float64 bit-equal) or a runtime error of the stated type naming the offending operand"),
+        "Oracle: value equality (float64 bit-equal) or a runtime error of the stated type naming the offending operand; re-evaluation: every operator parsed "
+        "ONCE and evaluated for sequences of operand pairs (zero divisors, wrong kinds, malformed patterns in between) must give what a fresh parse gives"),
  "C04": dict(engine="engine-B", cat="exploration", ref="DESIGN.md 5.2, 7/C04, 9a", note="observation = ordered trace of a harness mark() function plus type/detail/data of the final error; left open: otherwise after return/break/continue, exits from inside finally, range with contradictory or missing step, control statements leaving the program", tech="bounded exhaustive enumeration of programs (full product over exit kinds x handler shapes x clauses x contexts) against a small-step reference interpreter over the generator's own statement trees",
    text="every try statement = body exit kind (fall through, raise A, raise B, runtime error, return, break, continue) x 8 handler shapes (none, "
         "bare, `e`, \"A\", \"A\" as e, \"A\",\"B\", \"A\" then bare, \"B\" then \"A\" as e) x otherwise (absent, marker, raising) x finally x handler "
         "blocks that raise / return, placed at top level, in loop and function bodies and inside another try's body / except / otherwise "
         "(5 400 programs); every loop kind (range(a,b[,s]) for a,b in 1..3, s in {none,1,2,-1}; lists; condition) x exit statement (none, break, "
         "continue, raise, return) at every iteration x nesting; if/elif/else chains x all truth assignments, and chains in which any guard raises / "
-        "fails at run time (at top level and inside try/except/otherwise/finally); a single-variable loop over a map that keeps the previous [key, value] entry. "
+        "fails at run time (at top level and inside try/except/otherwise/finally); a single-variable loop over a map that keeps the previous [key, value] entry; a return that passes through a finally / except block "
+        "which calls the same function again (4 shapes x depth 0-4). "
         "Oracle: marker trace and final "
         "error (type, detail, data) equal the reference"),
  "C06": dict(engine="engine-B", cat="exploration", ref="DESIGN.md 5, 7/C06", note="excluded as non-terminating by specification: sleep with a positive number, valid trigger registrations; evaluation runs under a deterministic step budget (harness debugger counting node visits); a panic on a worker goroutine kills the worker subprocess and is attributed to the case in progress through a side file", tech="bounded exhaustive enumeration of ill-typed and boundary-valued programs with 'no panic reaches the host' as oracle (recover in the evaluating goroutine plus subprocess death for worker goroutines), plus try/except catchability of every raised error",
@@ -182,7 +184,7 @@ CHECKS = {
         "catchable by try/except; a failing sink does not fail its caller. The universe includes NaN and +-Inf; built-in arguments are also reached "
         "through a call, an index, a field and parentheses (argument expression shapes); caught errors whose trace runs through commented calls; a "
         "malformed regular expression and a map holding a list are in the universe, every failing case is evaluated a second time inside try/except; "
-        "every field of a caught error object (type, detail, data, trace, line, ...) as operand of ==, in, len, concat, indexing, for"),
+        "every field of a caught error object (type, detail, data, trace, line, ...) as operand of ==, in, len, concat, indexing, for; 15 kinds of failure directly in a sink body, collected through addEventAndWait and used"),
  "C05": dict(engine="engine-B", cat="exploration", ref="DESIGN.md 5.2, 7/C05, 9a", note="reading an undefined name yields NULL (pinned by the suite); every block is entered once per program; reads of the argument of add/del after the call are left open; a failing statement inside try has no effect", tech="bounded exhaustive enumeration of programs and container operation sequences against boring reference models written in Go (environment chain, closures as Go values, slice/map model)",
    text="scoping: global definition x outer block kind (if, for, function, mutex, try) x outer statement (none, assignment, let) x inner block kind x inner "
         "statement x late let, probed at three levels (900 programs) against an environment-chain model; functions: parameters x 5 default kinds x 0-3 "
@@ -193,7 +195,7 @@ CHECKS = {
         "inheritance shapes (1-3 super templates x with/without own constructor x call order, super[i] by position); varsScope.GetValue / SetValue with "
         "every dotted container path of <= 3 (thorough 4) segments over {k, z, n, a, x, 0, 1, 2, -1, -3, 5} on a nested list/map structure: reads of "
         "existing paths, write-then-read, frame condition over all other paths, a failing write changes nothing, never a panic; maps holding a "
-        "number key and the equally spelled string key; names local to a try block are not visible in its except / otherwise / finally blocks"),
+        "number key and the equally spelled string key; names local to a try block are not visible in its except / otherwise / finally blocks; every evaluation of a list / map literal yields a new container"),
 }
 
 ENGINES = [
